@@ -207,7 +207,7 @@ def position_doc(rng, texts, convert_override, two_line=None):
     """one document carrying a distinct payload string in every text position; two_line = {component:
     [convert of line 0, convert of line 1]} gives that component a second line and a per-line text_convert"""
     def payload(tag):
-        return tag + texts[tag]
+        return tag + texts.get(tag, "")
     n = 4
     cols = [{"name": "N0", "dtype": "str", "values": [payload("d%dc0" % r) for r in range(n)]},
             {"name": "N1", "dtype": "str", "values": [payload("G0v0")] * n},
@@ -234,9 +234,16 @@ def position_doc(rng, texts, convert_override, two_line=None):
         else:
             spec[comp]["text_convert"] = conv
     for comp, convs in (two_line or {}).items():
+        if comp == "alias":
+            continue
         tag = TWO_LINE[comp]
         spec[comp]["text"] = [payload(tag + "0"), payload(tag + "1")]
         spec[comp]["text_convert"] = list(convs)
+    if (two_line or {}).get("alias"):
+        # the same column is the subline_by AND the page_by column: its value is shown twice per page, as the
+        # heading paragraph and as the spanning row
+        spec["body"]["subline_by"] = ["N1"]
+        spec["df"]["cols"] = spec["df"]["cols"][:2]
     return spec
 
 
@@ -261,7 +268,9 @@ def check_positions(ctx, rng, pool, fixed=None):
     if fixed:
         override = fixed["override"]
         two_line = fixed.get("two_line") or {}
-        tags += [TWO_LINE[c] + "1" for c in two_line]
+        tags += [TWO_LINE[c] + "1" for c in two_line if c != "alias"]
+    if not fixed and rng.random() < 0.25:
+        two_line["alias"] = True
     for comp in ([] if fixed else TWO_LINE):
         if rng.random() < 0.4:
             two_line[comp] = [rng.random() < 0.5, rng.random() < 0.5]
@@ -274,7 +283,12 @@ def check_positions(ctx, rng, pool, fixed=None):
                    "H0c0": conv["colheader"], "G0v0": conv["body"], "SB0x0": False}
     for r in range(4):
         conv_of_tag["d%dc0" % r] = conv["body"]
+    alias = bool(two_line.get("alias"))
+    if alias and "SB0x0" in tags:
+        tags.remove("SB0x0")
     for comp, convs in two_line.items():
+        if comp == "alias":
+            continue
         conv_of_tag[TWO_LINE[comp] + "0"], conv_of_tag[TWO_LINE[comp] + "1"] = convs
     texts = {}
     for t in tags:
@@ -307,12 +321,14 @@ def check_positions(ctx, rng, pool, fixed=None):
     judge_common(ctx, doc, case)
     # collect every text the reader shows
     seen = {}
+    seen_para = set()
     for page in doc.pages:
         for b in page.blocks:
             if b.kind == "para" and b.text:
                 for line in b.text.split("\n"):
                     seen.setdefault(line, 0)
                     seen[line] += 1
+                    seen_para.add(line)
             elif b.kind == "row":
                 for t in b.texts:
                     seen.setdefault(t, 0)
@@ -331,8 +347,10 @@ def check_positions(ctx, rng, pool, fixed=None):
         ctx.count("positions_checked")
         ctx.distinct("positions", pos + ("/table" if pos in ("footnote", "source") and spec[pos]["as_table"]
                                          else "/para" if pos in ("footnote", "source") else ""))
-        if want in seen:
+        if want in seen and not (alias and t == "G0v0" and want not in seen_para):
             continue
+        if alias and t == "G0v0":
+            pos = "subline_by_heading (same column as page_by)"
         near = [s for s in seen if s.startswith(t)]
         worst = max((ord(ch) for ch in texts[t]), default=0)
         mech = None
